@@ -139,16 +139,33 @@ def search(run, info):
     for _ in range(nrand):
         n = rng.randint(4, 40)
         histories.append([(rng.choice("OC"), rng.randint(1, 2), rng.randrange(len(texts))) for _ in range(n)])
+    # re-opening a document: editors count versions per document and restart at 1 on every didOpen, so a later change can
+    # carry a version the server has seen before
+    for a, b in itertools.product(range(2), repeat=2):
+        for c, d in itertools.product(docs_alpha, repeat=2):
+            histories.append([("O", 1, a), ("C", 1, b), ("O", 1, c), ("C", 1, d)])
+    for d in range(5, len(texts)):
+        histories.append([("O", 1, d)])
+        histories.append([("O", 1, 0), ("C", 1, d)])
+        histories.append([("O", 2, 0), ("O", 1, d), ("C", 2, d)])
     fresh_cache = {}
     cli_cache = {}
 
+    def versions_of(h):
+        ver = {}
+        out = []
+        for (k, uid, d) in h:
+            ver[uid] = 1 if k == "O" else ver.get(uid, 0) + 1
+            out.append(ver[uid])
+        return out
+
     def msgs_of(h):
         out = []
-        for i, (k, uid, d) in enumerate(h):
+        for v, (k, uid, d) in zip(versions_of(h), h):
             if k == "O":
-                out.append(("O", uid, True, i + 1, d))
+                out.append(("O", uid, True, v, d))
             else:
-                out.append(("C", uid, True, i + 1, [d]))
+                out.append(("C", uid, True, v, [d]))
         return out
 
     def runjob(h):
@@ -205,12 +222,13 @@ def search(run, info):
             continue
         st = {}
         bad = False
+        vers = versions_of(h)
         for i, ((k, uid, d), p) in enumerate(zip(h, pubs)):
             st[uid] = d
             pubs_checked += 1
-            if p["uri"] != L.uri_str(uid, True) or p.get("version") != i + 1:
+            if p["uri"] != L.uri_str(uid, True) or p.get("version") != vers[i]:
                 run.violation("impl-violates-property", "notification %d for %s version %d was answered for %s version %r" % (
-                    i, L.uri_str(uid, True), i + 1, p["uri"], p.get("version")), {"history": [list(x) for x in h], "docs": names})
+                    i, L.uri_str(uid, True), vers[i], p["uri"], p.get("version")), {"history": [list(x) for x in h], "docs": names})
                 bad = True
                 break
             got = tuple(sorted(L.diag_key(x) for x in p["diagnostics"]))
@@ -250,8 +268,9 @@ def search(run, info):
                         "published": [sorted(L.diag_key(x) for x in p["diagnostics"]) for p in pubs[:4]]})
     return {"coverage": {
         "rule": "all notification sequences of length %d over 2 URIs x 5 document texts (valid, lexical error, syntax error, semantic "
-                "error, depends-on-other-document) x {didOpen, didChange} (every prefix is checked through its publish), plus random "
-                "histories of length 4-40 over 7 documents incl. a pair with a two-file diagnostic; every publish is compared with a "
+                "error, depends-on-other-document) x {didOpen, didChange} (every prefix is checked through its publish; versions are "
+                "counted per document and restart at 1 on every didOpen), the 100 open-change-reopen-change histories, plus random "
+                "histories of length 4-40 over 10 documents incl. a pair with a two-file diagnostic and three with non-ASCII characters in front of the diagnosed place; every publish is compared with a "
                 "fresh server (3 runs) given the same current contents and with `ironplcc check`; non-trivial = every history, "
                 "distinct by message list" % depth,
         "histories": len(histories),
@@ -270,8 +289,10 @@ def replay(run, rep):
     binp = vlib.ironplcc_bin()
     h = [tuple(x) for x in h]
     msgs = []
-    for i, (k, uid, d) in enumerate(h):
-        msgs.append(("O", uid, True, i + 1, d) if k == "O" else ("C", uid, True, i + 1, [d]))
+    ver = {}
+    for (k, uid, d) in h:
+        ver[uid] = 1 if k == "O" else ver.get(uid, 0) + 1
+        msgs.append(("O", uid, True, ver[uid], d) if k == "O" else ("C", uid, True, ver[uid], [d]))
     res = lspclient.session(binp, [L.to_real(m, texts) for m in msgs], timeout=120)
     pubs = [f["params"] for f in res["frames"] if f.get("method") == "textDocument/publishDiagnostics"]
     if res["exit"] != 0 or len(pubs) != len(h):
